@@ -109,8 +109,11 @@ struct BlobSet
     bool have_highres = false;
 };
 
-static void check_blobs(World& w, int64_t id, const BlobSet& b, const dj::track_snapshot* snap)
+static void check_blobs(World& w, int64_t id, const BlobSet& b, const dj::track_snapshot* snap, const dj::track_snapshot* given = nullptr)
 {
+    // `snap` is what the library itself reads back; `given` (when the step was a snapshot write to this track) is what
+    // the caller handed in.  An encoder and a decoder that drift together agree with each other - the independent
+    // decoder must agree with the caller: exact fields of the given value are compared with the stored bytes directly.
     // rows written through the table API hold whatever the caller gave: only decodability is judged there
     const bool shapes = !(w.plan.cfg.table_api && w.plan.cfg.profile.compare(0, 5, "table") == 0);
     if (!shapes)
@@ -208,6 +211,19 @@ static void check_blobs(World& w, int64_t id, const BlobSet& b, const dj::track_
                     }
                 if (!same_opt(q.adj_main, snap->main_cue))
                     bad02("quickCues", "main_cue", "");
+                if (given)
+                    for (size_t i = 0; i < q.cues.size() && i < given->hot_cues.size(); ++i)
+                    {
+                        auto& g = given->hot_cues[i];
+                        auto& c = q.cues[i];
+                        if (!g || g->sample_offset == -1 || c.offset == -1)
+                            continue;
+                        if (c.label != g->label)
+                            bad02("quickCues", "label-vs-given", "slot " + std::to_string(i) + ": the stored label is not the label the caller wrote");
+                        if (!same_bits(c.offset, g->sample_offset) || c.a != g->color.a || c.r != g->color.r || c.g != g->color.g || c.b != g->color.b)
+                            bad02("quickCues", "entry-vs-given", "slot " + std::to_string(i) + ": stored offset / colour is not what the caller wrote");
+                        w.probes.hit("audit_given_cue_compared");
+                    }
             }
         }
     }
@@ -241,6 +257,20 @@ static void check_blobs(World& w, int64_t id, const BlobSet& b, const dj::track_
                     }
                     else if (w.v2 ? (c.start_set || c.end_set) : (c.start != -1))
                         bad02("loops", "empty-slot", "slot " + std::to_string(i));
+                }
+            if (given)
+                for (size_t i = 0; i < l.loops.size() && i < given->loops.size(); ++i)
+                {
+                    auto& g = given->loops[i];
+                    auto& c = l.loops[i];
+                    if (!g || g->start_sample_offset == -1 || !(w.v2 ? (c.start_set && c.end_set) : (c.start != -1)))
+                        continue;
+                    if (c.label != g->label)
+                        bad02("loops", "label-vs-given", "slot " + std::to_string(i) + ": the stored label is not the label the caller wrote");
+                    if (!same_bits(c.start, g->start_sample_offset) || !same_bits(c.end, g->end_sample_offset) || c.a != g->color.a ||
+                        c.r != g->color.r || c.g != g->color.g || c.b != g->color.b)
+                        bad02("loops", "entry-vs-given", "slot " + std::to_string(i) + ": stored offsets / colour are not what the caller wrote");
+                    w.probes.hit("audit_given_loop_compared");
                 }
         }
     }
@@ -440,7 +470,8 @@ void World::audit()
                 b.loops = col_blob(st, 10);
                 auto it = prev.track.find(id);
                 const dj::track_snapshot* snap = (it != prev.track.end() && it->second.have_snapshot && !foreign_tracks.count(id)) ? &it->second.snapshot : nullptr;
-                check_blobs(*this, id, b, check(CK_AUDIT) ? snap : nullptr);
+                auto gw = last_written.find(id);
+                check_blobs(*this, id, b, check(CK_AUDIT) ? snap : nullptr, (snap && check(CK_AUDIT) && gw != last_written.end()) ? &gw->second : nullptr);
             });
     }
     else
@@ -490,7 +521,8 @@ void World::audit()
                 b.loops = col_blob(st, 6);
                 auto it = prev.track.find(id);
                 const dj::track_snapshot* snap = (it != prev.track.end() && it->second.have_snapshot && !foreign_tracks.count(id)) ? &it->second.snapshot : nullptr;
-                check_blobs(*this, id, b, check(CK_AUDIT) ? snap : nullptr);
+                auto gw = last_written.find(id);
+                check_blobs(*this, id, b, check(CK_AUDIT) ? snap : nullptr, (snap && check(CK_AUDIT) && gw != last_written.end()) ? &gw->second : nullptr);
             });
     }
     // ---- crates
